@@ -16,6 +16,16 @@ ROOT = os.path.dirname(os.path.abspath(__file__))
 ENV = dict(os.environ, GOFLAGS="-mod=mod", GOPROXY="off", GOSUMDB="off", GOTOOLCHAIN="local")
 
 
+def trim_cache():
+    """every changed tree compiles into the Go build cache (~1 GB each); keep it below ~25 GB"""
+    try:
+        out = subprocess.run("du -sm /root/.cache/go-build 2>/dev/null | cut -f1", shell=True, stdout=subprocess.PIPE, text=True).stdout.strip()
+        if out and int(out) > 25000:
+            subprocess.run("find /root/.cache/go-build -type f -mmin +40 -delete 2>/dev/null", shell=True)
+    except Exception:
+        pass
+
+
 def sh(cmd, cwd=None, timeout=3600, env=None):
     p = subprocess.run(cmd, cwd=cwd, shell=True, stdout=subprocess.PIPE, stderr=subprocess.STDOUT, text=True,
                        timeout=timeout, env=env or ENV)
@@ -23,6 +33,7 @@ def sh(cmd, cwd=None, timeout=3600, env=None):
 
 
 def run(bid, ws, props):
+    trim_cache()
     d = os.path.join(ROOT, "benign", bid)
     wt = "/root/scratch/benignwt-%s-%d" % (bid, os.getpid())
     sh("git -C /repo worktree remove --force %s" % wt)
